@@ -12,6 +12,11 @@ fn sn(n: f64, u: Unit) -> SassNumber {
     SassNumber { num: Number(n), unit: u, as_slash: None }
 }
 
+/// equal up to a few ulp: the statement fixes the ratios, not the order of the float operations
+fn close(got: f64, want: f64) -> bool {
+    (got - want).abs() <= 1e-12 * if want.abs() > 1.0 { want.abs() } else { 1.0 }
+}
+
 fn expected_unit(ia: u8, ib: u8, a: &Unit, b: &Unit) -> Unit {
     if ia == IDX_NONE {
         b.clone()
@@ -38,12 +43,12 @@ fn c08_sassnumber_add_sub() {
     if kani::any() {
         let out = sn(l, a.clone()) + sn(r, b.clone());
         assert!(out.unit == want_unit, "C08/K/sassnumber_add_sub: unit of sum");
-        assert!(out.num.0 == l + r * f, "C08/K/sassnumber_add_sub: magnitude of sum");
+        assert!(close(out.num.0, l + r * f), "C08/K/sassnumber_add_sub: magnitude of sum");
         assert!(out.as_slash.is_none(), "C08/K/sassnumber_add_sub: slash dropped");
     } else {
         let out = sn(l, a.clone()) - sn(r, b.clone());
         assert!(out.unit == want_unit, "C08/K/sassnumber_add_sub: unit of difference");
-        assert!(out.num.0 == l - r * f, "C08/K/sassnumber_add_sub: magnitude of difference");
+        assert!(close(out.num.0, l - r * f), "C08/K/sassnumber_add_sub: magnitude of difference");
     }
     kani::cover!(ia != ib && ia != IDX_NONE && ib != IDX_NONE);
     kani::cover!(ia == IDX_NONE && ib != IDX_NONE);
@@ -70,11 +75,11 @@ fn c08_sassnumber_add_sub_more_magnitudes() {
     if kani::any() {
         let out = sn(l, a.clone()) + sn(r, b.clone());
         assert!(out.unit == want_unit, "C08/K/sassnumber_add_sub_more_magnitudes: unit of sum");
-        assert!(out.num.0 == l + r * f, "C08/K/sassnumber_add_sub_more_magnitudes: magnitude of sum");
+        assert!(close(out.num.0, l + r * f), "C08/K/sassnumber_add_sub_more_magnitudes: magnitude of sum");
     } else {
         let out = sn(l, a.clone()) - sn(r, b.clone());
         assert!(out.unit == want_unit, "C08/K/sassnumber_add_sub_more_magnitudes: unit of difference");
-        assert!(out.num.0 == l - r * f, "C08/K/sassnumber_add_sub_more_magnitudes: magnitude of difference");
+        assert!(close(out.num.0, l - r * f), "C08/K/sassnumber_add_sub_more_magnitudes: magnitude of difference");
     }
     kani::cover!(ia != ib && ia != IDX_NONE && ib != IDX_NONE);
 }
